@@ -95,17 +95,14 @@ AddElement(t, e) ==
     ELSE Append(t, e)
 
 \* iteration order of the nested dict: groups by first insertion, names by insertion
-Groups(t) ==
-    LET F[i \in 0..Len(t)] ==
-          IF i = 0 THEN <<>>
-          ELSE LET p == F[i - 1] IN
-               IF \E j \in DOMAIN p : p[j] = t[i].group THEN p ELSE Append(p, t[i].group)
-    IN F[Len(t)]
+\* (written without recursion: key = (first position of the element's group, own position))
 Grouped(t) ==
-    LET gs == Groups(t)
-        G[i \in 0..Len(gs)] == IF i = 0 THEN <<>>
-                               ELSE G[i - 1] \o SelectSeq(t, LAMBDA e : e.group = gs[i])
-    IN G[Len(gs)]
+    LET n == Len(t)
+        fpos == [i \in 1..n |-> CHOOSE j \in 1..i : t[j].group = t[i].group /\
+                                        \A j2 \in 1..(j - 1) : t[j2].group # t[i].group]
+        key == [i \in 1..n |-> fpos[i] * (n + 1) + i]
+        rank == [i \in 1..n |-> Cardinality({j \in 1..n : key[j] < key[i]}) + 1]
+    IN [k \in 1..n |-> t[CHOOSE i \in 1..n : rank[i] = k]]
 
 \* what the cache returns on a hit: the table as stored by an earlier complete download
 \* (TocCache stores ident, group, name, ctype, pytype, access, extended; not persistent)
@@ -168,16 +165,17 @@ Start(c) == /\ fstate = "idle" /\ cfg = NoCfg
 \* _toc_fetch_finished -> finished_callback.  log: done.  param: Param.refresh_toc.refresh_done
 ExtElems(t) == SelectSeq(Grouped(t), LAMBDA e : e.extended)
 Finish(t, pend1, up1) ==
+    LET xe == IF cfg.kind = "param" THEN ExtElems(t) ELSE <<>> IN
     /\ cbOn' = FALSE
     /\ toc' = t
-    /\ IF cfg.kind = "param" /\ ExtElems(t) # <<>> /\ Bug # "EarlyDone"
-       THEN /\ xstate' = "run" /\ xcount' = Len(ExtElems(t))
-            /\ xqueue' = [i \in DOMAIN ExtElems(t) |-> ExtElems(t)[i].ident]
+    /\ IF xe # <<>> /\ Bug # "EarlyDone"
+       THEN /\ xstate' = "run" /\ xcount' = Len(xe)
+            /\ xqueue' = [i \in DOMAIN xe |-> xe[i].ident]
             /\ UNCHANGED <<done, doneSnap, xreq, xlock>>
        ELSE /\ done' = TRUE /\ doneSnap' = t
-            /\ IF cfg.kind = "param" /\ ExtElems(t) # <<>>       \* EarlyDone: signalled although the queries are still to come
-               THEN /\ xstate' = "run" /\ xcount' = Len(ExtElems(t))
-                    /\ xqueue' = [i \in DOMAIN ExtElems(t) |-> ExtElems(t)[i].ident]
+            /\ IF xe # <<>>       \* EarlyDone: signalled although the queries are still to come
+               THEN /\ xstate' = "run" /\ xcount' = Len(xe)
+                    /\ xqueue' = [i \in DOMAIN xe |-> xe[i].ident]
                ELSE UNCHANGED <<xstate, xcount, xqueue>>
             /\ UNCHANGED <<xreq, xlock>>
     /\ pend' = pend1 /\ up' = up1
